@@ -17,6 +17,9 @@
 (*          reader); rtips1 includes the wanted values after a fetch       *)
 (*   runk   number of objects in the receiver that are not objects of U    *)
 (*   idbad  number of objects whose bytes differ from the sender's         *)
+(*   gitok  1: git cat-file --batch-all-objects lists the same objects and *)
+(*          git fsck --connectivity-only accepts the receiver; 0: not;     *)
+(*          2: not asked                                                   *)
 (*   wants  what was asked for;  forged = 1: not an advertised value;      *)
 (*          mwants: the want list the sender's MissingObjectFinder was     *)
 (*          given (push: the new values the remote does not list already)  *)
@@ -124,6 +127,7 @@ Judge(t) ==
             ELSE IF t.idbad > 0 \/ t.runk > 0 THEN "Identity"
             ELSE IF ok /\ ~(wcl \subseteq r1) THEN "ReceiverComplete.wants"
             ELSE IF ~(need \subseteq r1) THEN "ReceiverComplete.closed"
+            ELSE IF t.gitok = 0 THEN "Identity.git"
             ELSE "ok"
         clause ==
             IF ~Closed(U, sstore) \/ ~Closed(U, r0) \/ ~(Closure(U, SeqSet(t.rtips0)) \subseteq r0)
@@ -158,6 +162,7 @@ Judge(t) ==
             ELSE "ok"
     IN  PrintT(<<"V", t.tid, clause, shape,
                  IF clause \in {"ReceiverComplete.wants", "ReceiverComplete.closed"} THEN need \ r1
+                 ELSE IF sndClause = "SenderSound.advertised" THEN sent \ Closure(U, srefs)
                  ELSE IF sndClause # "ok" THEN sent \ (wcl \cup auto)
                  ELSE IF shape = "MofConform" THEN <<sent, MofSent(U, sstore, haves, SeqSet(t.mwants), <<>>)>>
                  ELSE {}>>)
